@@ -29,7 +29,7 @@ from dashlive.utils.objects import flatten
 
 from .base import HTMLHandlerBase, DeleteModelBase, TemplateContext
 from .csrf import CsrfTokenCollection
-from .decorators import login_required, uses_stream, current_stream
+from .decorators import login_required, rejects_malformed_payload, uses_stream, current_stream
 from .exceptions import CsrfFailureException
 from .manifest_context import ManifestContext
 from .utils import is_ajax, jsonify
@@ -136,12 +136,14 @@ class AddStream(HTMLHandlerBase):
             fields=model.get_fields(**flask.request.args)))
         return flask.render_template('media/add_stream.html', **context)
 
+    @rejects_malformed_payload
     def post(self) -> flask.Response:
         """
         Adds a new stream using HTML form submission
         """
         return self.add_stream(flask.request.form)
 
+    @rejects_malformed_payload
     def put(self, **kwargs) -> flask.Response:
         """
         Adds a new stream using JSON API
@@ -322,6 +324,7 @@ class EditStream(HTMLHandlerBase):
         return flask.render_template('media/stream.html', **context)
 
     @login_required(permission=models.Group.MEDIA)
+    @rejects_malformed_payload
     def post(self, spk: int) -> flask.Response:
         def str_or_none(value: str | None) -> str | None:
             if value is None:
@@ -538,6 +541,7 @@ class EditStreamDefaults(HTMLHandlerBase):
         return flask.render_template('media/stream_defaults.html', **context)
 
     @login_required(permission=models.Group.MEDIA)
+    @rejects_malformed_payload
     def post(self, spk: int) -> flask.Response:
         try:
             self.check_csrf('streams', flask.request.form)
